@@ -189,8 +189,15 @@ static Mat EIGS_eigenvectors(SVD *S, Index nvec)
     okd = bool(re.search(r"SortRule\s+sorting\s*=\s*SortRule::LargestAlge", cf.params))
     groups.append(z3lemma.StaticGroup("svd.sorting-default", ok=okd, detail="HermEigsBase::compute(..., SortRule sorting = SortRule::LargestAlge)" if okd else cf.params,
                                       obligation="default sorting of the symmetric solver is LargestAlge, so singular values come out in non-increasing order (with C05/C18)"))
+    # the contracts of the owned symmetric solver that the SVD wrapper relies on for pairing: eigenvalues() / eigenvectors(nvec) return the flagged
+    # pairs in the same stored order (groups shared with C05/C01)
+    from props import skelgroups as SG
+    srep = {}
+    groups += [g for g in SG.select("C05", ["herm"], srep) if g.name in ("Herm.eigenvalues", "Herm.eigenvectors")]
+    report["solver accessors"] = {k: v for k, v in srep.items() if "eigenv" in k}
     meta = {"level": "proof", "trusted_base": ["cbmc 6.11.0 dfcc", "cadical", "extractor"],
-            "assumptions": ["the owned SymEigsSolver satisfies its contracts from C05/C12 (constructor range check, compute() return == number of flagged pairs == eigenvectors().cols())",
+            "assumptions": ["the owned SymEigsSolver satisfies its contracts from C05/C12 (constructor range check, compute() return == number of flagged pairs == eigenvectors().cols()); "
+                            "its accessor contracts (eigenvalues()/eigenvectors(nvec) return the flagged pairs in the same order) are proved here too (Herm.eigenvalues, Herm.eigenvectors)",
                             "a new-expression whose constructor throws releases its own storage (C++ semantics)",
                             "Eigen expression values are not modelled"],
             "not_covered": ["U'U = I, V'V = I, A V = U S, A'U = V S (numerical)", "non-negativity/finiteness of sqrt of computed eigenvalues on rank-deficient input (F10, numerical)"],
